@@ -67,11 +67,29 @@ fn phase_num(p: TxPhase) -> u8 {
     }
 }
 
+/// Shard lists: `-` = empty, comma separated; a run of at least 32 consecutive ids (the participant
+/// list of a WIDE transaction: tens of thousands of shards, a TxBegin / AbortIntent record of 64 KiB
+/// and more) is written `lo..hi` — the model driver applies the same rule, so the notation is
+/// canonical and the protocol lines, traces and replay files stay short.
 fn show_list(v: &[usize]) -> String {
     if v.is_empty() {
         "-".into()
+    } else if v.len() >= 32 && v.windows(2).all(|w| w[1] == w[0] + 1) {
+        format!("{}..{}", v[0], v[v.len() - 1])
     } else {
         v.iter().map(|x| x.to_string()).collect::<Vec<_>>().join(",")
+    }
+}
+
+/// payload length classes (boundaries that exist or could plausibly exist in WAL code: one-byte and
+/// two-byte lengths, the 8 KiB buffer of BufReader / BufWriter, 64 KiB, 1 MiB)
+fn len_bucket(l: usize) -> &'static str {
+    match l {
+        0..=255 => "lt256",
+        256..=8191 => "lt8k",
+        8192..=65535 => "lt64k",
+        65536..=1_048_575 => "ge64k",
+        _ => "ge1m",
     }
 }
 
@@ -136,8 +154,12 @@ enum Op {
     Crash { cut: Cut, timeout: u64, maxc: usize, cap: Option<(u64, bool)> },
 }
 
-fn op_json(o: &Op) -> Value {
-    json!(format!("{o:?}"))
+/// an op for traces and reports (a wide participant list in range notation)
+fn op_show(o: &Op) -> String {
+    match o {
+        Op::Begin { parts, xflag } if parts.len() >= 32 => format!("Begin {{ parts: [{}], xflag: {xflag} }}", show_list(parts)),
+        _ => format!("{o:?}"),
+    }
 }
 
 // ------------------------------------------------------------------ bookkeeping
@@ -169,6 +191,8 @@ struct HandleInfo {
 struct Rec {
     token: String,
     end: usize,
+    /// payload bytes of the record
+    plen: usize,
 }
 
 #[derive(Clone, Default)]
@@ -374,12 +398,19 @@ fn tmp_dir() -> tempfile::TempDir {
 }
 
 fn new_coord(path: &Path, timeout: u64, maxc: usize, cap: Option<(u64, bool)>) -> (DistributedTxCoordinator, Result<Vec<TxWalEntry>, String>, u64) {
+    let (c, replayed, len_after_open, _) = new_coord_counted(path, timeout, maxc, cap);
+    (c, replayed, len_after_open)
+}
+
+/// ... and the number of records `TxWal::open` counted in the file (`entry_count()`)
+fn new_coord_counted(path: &Path, timeout: u64, maxc: usize, cap: Option<(u64, bool)>) -> (DistributedTxCoordinator, Result<Vec<TxWalEntry>, String>, u64, u64) {
     let wal = TxWal::open_with_config(path, wal_cfg(cap)).expect("open wal");
     let len_after_open = std::fs::metadata(path).map(|m| m.len()).unwrap_or(0);
+    let counted = wal.entry_count();
     let replayed = wal.replay().map_err(|e| e.to_string());
     let cfg = DistributedTxConfig { prepare_timeout_ms: timeout, max_concurrent: maxc, ..DistributedTxConfig::default() };
     let c = DistributedTxCoordinator::new(ConsensusManager::new(ConsensusConfig::default()), cfg).with_wal(wal);
-    (c, replayed, len_after_open)
+    (c, replayed, len_after_open, counted)
 }
 
 impl World {
@@ -451,7 +482,7 @@ impl World {
             if token != "?" && self.defined.insert(p.clone()) {
                 m.ask(&format!("def {} {}", hex(&p), token));
             }
-            out.push(Rec { token, end });
+            out.push(Rec { token, end, plen: p.len() });
         }
         out
     }
@@ -551,6 +582,11 @@ fn num_phase(n: u8) -> TxPhase {
 fn parse_list(s: &str) -> Vec<usize> {
     if s == "-" || s.is_empty() {
         vec![]
+    } else if let Some((a, b)) = s.split_once("..") {
+        match (a.parse::<usize>(), b.parse::<usize>()) {
+            (Ok(lo), Ok(hi)) if lo <= hi => (lo..=hi).collect(),
+            _ => vec![],
+        }
     } else {
         s.split(',').filter_map(|x| x.parse().ok()).collect()
     }
@@ -733,7 +769,7 @@ fn exec(w: &mut World, op: &Op, cx: &mut Ctx) {
     let before_len = w.book.file_len;
     let rot = matches!(w.cap, Some((_, true)));
     let pre_bytes = if rot || matches!(op, Op::Truncate | Op::TruncateAnyway) { Some(w.file()) } else { None };
-    w.cur = format!("{op:?}");
+    w.cur = op_show(op);
     let stream = format!("{}coord.op", cx.stream_prefix);
     let mut strip = false;
     // (name, canonical tx, answered ok) of a commit / abort, for the answer-vs-log oracle
@@ -1070,6 +1106,7 @@ fn exec(w: &mut World, op: &Op, cx: &mut Ctx) {
     let mut new_outcome: Option<char> = None;
     for r in &recs {
         cx.rep.hit(&format!("wal.{}", &r.token[..1]));
+        cx.rep.hit(&format!("wal.len.{}", len_bucket(r.plen)));
         if let Some(rest) = r.token.strip_prefix("C:") {
             let mut it = rest.split(':');
             let cid: u64 = it.next().unwrap_or("0").parse().unwrap_or(0);
@@ -1179,17 +1216,23 @@ fn restart_at(w: &mut World, pre: &[u8], n: usize, timeout: u64, maxc: usize, ca
     // model: classification of the raw cut bytes, valid_len, then restart
     cx.m.ask(&new_line(timeout, maxc, cap));
     let hexb = hex(cutb);
-    let m_class = cx.m.ask(&format!("recover {hexb}"));
-    let m_vlen = cx.m.ask(&format!("valid_len {hexb}"));
+    // (files of more than 512 KiB: the model's separate `recover` / `valid_len` answers are skipped for
+    // time - its `restart` below goes through the same repair, replay and scan - and the streams
+    // recover.class / wal.valid_len are not compared for that restart)
+    let huge = n > 512 * 1024;
+    let m_class = if huge { String::new() } else { cx.m.ask(&format!("recover {hexb}")) };
+    let m_vlen = if huge { String::new() } else { cx.m.ask(&format!("valid_len {hexb}")) };
 
     let t0 = now_ms();
-    let (c, replayed, len_after_open) = new_coord(&w.path, timeout, maxc, cap);
+    let (c, replayed, len_after_open, counted) = new_coord_counted(&w.path, timeout, maxc, cap);
     w.coord = Some(c);
     w.timeout = timeout;
     w.maxc = maxc;
     w.cap = cap;
     let sp = cx.stream_prefix;
-    cx.rep.compare(&format!("{sp}wal.valid_len"), || json!({"trace": w.trace}), &len_after_open.to_string(), &m_vlen);
+    if !huge {
+        cx.rep.compare(&format!("{sp}wal.valid_len"), || json!({"trace": w.trace}), &len_after_open.to_string(), &m_vlen);
+    }
 
     // classification straight from the WAL (a second handle on the same file, read only)
     let class_impl = {
@@ -1199,17 +1242,59 @@ fn restart_at(w: &mut World, pre: &[u8], n: usize, timeout: u64, maxc: usize, ca
             Err(_) => "err checksum".to_string(),
         }
     };
-    cx.rep.compare(&format!("{sp}recover.class"), || json!({"trace": w.trace, "bytes": hexb}), &class_impl, &m_class);
+    if !huge {
+        cx.rep.compare(&format!("{sp}recover.class"), || json!({"trace": w.trace, "bytes": hexb}), &class_impl, &m_class);
+    }
 
     let rec = w.c().recover_from_wal();
     let t1 = now_ms();
+    let log_tokens: Result<Vec<String>, String> = replayed.map(|es| es.iter().map(|e| w.book.token(e)).collect());
+
+    // ---- oracle: acknowledged records survive — every record the harness saw appended (fsynced,
+    // acknowledged) whose last byte lies before the cut is replayed after the restart, whatever its
+    // size and whatever surrounds it.  (This is what the torn-tail defect broke; it is also what a
+    // read side that accepts fewer frames than the write side produces breaks.)  Real outputs only:
+    // evaluated before the clock guard, independent of the model.
+    let expect_toks: Vec<String> = expect.iter().map(|r| r.token.clone()).collect();
+    let got = log_tokens.clone().unwrap_or_default();
+    if rec.is_err() || log_tokens.is_err() || got != expect_toks {
+        let class = if w.book.torn_tail_seen {
+            "tensor_chain.tx_wal.open/append_after_torn_tail"
+        } else {
+            "tensor_chain.tx_wal.replay/acknowledged_record_lost"
+        };
+        let lost: Vec<&String> = expect_toks.iter().filter(|t| !got.contains(t)).collect();
+        // the payload lengths of the surviving records, in file order, up to the first lost one
+        let first_lost = expect_toks.iter().zip(got.iter()).position(|(a, b)| a != b).unwrap_or(got.len().min(expect_toks.len()));
+        let lens: Vec<usize> = expect.iter().map(|r| r.plen).collect();
+        violation(cx, w, class,
+            "records appended (fsynced, acknowledged) before the cut are not what replay returns after restart",
+            json!({"expected": expect_toks, "replayed": got, "lost": lost, "payload_lengths_of_expected_records": lens,
+                   "first_record_not_replayed": first_lost, "recover_err": rec.as_ref().err().map(|e| e.to_string())}));
+    }
+    // ---- oracle: the two readers of the file agree — `TxWal::open` counts the complete records of
+    // the file by their headers (`entry_count()`), `replay()` returns them; every record in these
+    // files was written by `append`, so replay must return as many as open counted
+    cx.rep.hit("oracle.open_count_vs_replay");
+    if let Ok(toks) = &log_tokens {
+        if toks.len() as u64 != counted {
+            let class = if w.book.torn_tail_seen {
+                "tensor_chain.tx_wal.open/append_after_torn_tail"
+            } else {
+                "tensor_chain.tx_wal.replay/fewer_records_than_open_counted"
+            };
+            violation(cx, w, class,
+                "TxWal::open counted more complete records in the file than TxWal::replay returns: records written by append are invisible to recovery",
+                json!({"entry_count_after_open": counted, "replayed": toks.len(),
+                       "payload_lengths_in_file": frames(cutb, 0).iter().map(|f| f.2.len()).collect::<Vec<_>>()}));
+        }
+    }
     if t1.saturating_sub(t0) > GUARD_MS / 2 {
         w.clock_unsure = true;
         cx.rep.hit("clock.unsure_dropped");
         return;
     }
     let m_restart = cx.m.ask(&format!("restart {hexb} {t0}"));
-    let log_tokens: Result<Vec<String>, String> = replayed.map(|es| es.iter().map(|e| w.book.token(e)).collect());
     let impl_restart = match (&rec, &log_tokens) {
         (Ok(_), Ok(toks)) => format!("ok | {} | {}", if toks.is_empty() { "-".to_string() } else { toks.join(" ") }, w.digest()),
         _ => "err checksum".to_string(),
@@ -1224,20 +1309,6 @@ fn restart_at(w: &mut World, pre: &[u8], n: usize, timeout: u64, maxc: usize, ca
     };
     cx.rep.compare(&format!("{sp}coord.restart"), || json!({"trace": w.trace, "bytes": hexb}), &impl_restart, &model_restart);
 
-    // ---- oracle: acknowledged records survive (this is what the torn-tail defect breaks)
-    let expect_toks: Vec<String> = expect.iter().map(|r| r.token.clone()).collect();
-    let got = log_tokens.clone().unwrap_or_default();
-    if rec.is_err() || log_tokens.is_err() || got != expect_toks {
-        let class = if w.book.torn_tail_seen {
-            "tensor_chain.tx_wal.open/append_after_torn_tail"
-        } else {
-            "tensor_chain.tx_wal.replay/acknowledged_record_lost"
-        };
-        let lost: Vec<&String> = expect_toks.iter().filter(|t| !got.contains(t)).collect();
-        violation(cx, w, class,
-            "records appended (fsynced, acknowledged) before the cut are not what replay returns after restart",
-            json!({"expected": expect_toks, "replayed": got, "lost": lost, "recover_err": rec.as_ref().err().map(|e| e.to_string())}));
-    }
     if torn_now {
         w.book.torn_tail_seen = true;
     }
@@ -1402,7 +1473,35 @@ fn show_recovery(st: &TxRecoveryState, b: &Book) -> String {
 // ------------------------------------------------------------------ generators
 
 /// the life of one transaction, as a list of ops on tx index `t`
-fn plan(r: &mut Rng, t: usize) -> (Op, Vec<Op>) {
+fn plan(r: &mut Rng, t: usize, wide: Option<usize>, allow_timeouts: bool) -> (Op, Vec<Op>) {
+    if let Some(n) = wide {
+        // a WIDE transaction: `n` participant shards, so its TxBegin (and the AbortIntent written
+        // for it when it times out) is a long record in the middle of the other transactions'
+        // records.  It cannot collect all votes in a short script: it stays Preparing, is voted on
+        // a little, aborted, refused a commit, or times out.
+        let parts: Vec<usize> = (0..n).collect();
+        let mut ops = vec![];
+        match r.below(4) {
+            0 => {}
+            1 => ops.push(Op::Vote { t, shard: 0, v: V::YesLocked }),
+            2 => {
+                ops.push(Op::Vote { t, shard: 0, v: V::YesLocked });
+                ops.push(Op::Vote { t, shard: 1, v: V::No });
+            }
+            _ => ops.push(Op::Vote { t, shard: n - 1, v: V::YesLocked }),
+        }
+        if allow_timeouts && r.chance(2, 3) {
+            ops.push(Op::Sleep(2 * GUARD_MS));
+            ops.push(Op::Cleanup);
+            ops.push(Op::Flush);
+        }
+        match r.below(6) {
+            0 => ops.push(Op::Commit(t)),
+            1 | 2 => ops.push(Op::Abort(t)),
+            _ => {}
+        }
+        return (Op::Begin { parts, xflag: false }, ops);
+    }
     let np = 1 + r.below(3) as usize;
     let mut parts: Vec<usize> = (0..np).collect();
     if r.chance(1, 8) {
@@ -1459,9 +1558,15 @@ fn plan(r: &mut Rng, t: usize) -> (Op, Vec<Op>) {
 
 /// interleave the plans of `n` transactions, with global ops sprinkled in
 fn gen_phase(r: &mut Rng, first_t: usize, n: usize, allow_timeouts: bool) -> Vec<Op> {
+    gen_phase_wide(r, first_t, n, allow_timeouts, None)
+}
+
+/// `wide` = participant count of one wide transaction among the `n` (which one: drawn here)
+fn gen_phase_wide(r: &mut Rng, first_t: usize, n: usize, allow_timeouts: bool, wide: Option<usize>) -> Vec<Op> {
     let mut queues: Vec<Vec<Op>> = vec![];
+    let wide_at = if wide.is_some() { r.below(n as u64) as usize } else { usize::MAX };
     for i in 0..n {
-        let (b, mut rest) = plan(r, first_t + i);
+        let (b, mut rest) = plan(r, first_t + i, if i == wide_at { wide } else { None }, allow_timeouts);
         rest.insert(0, b);
         queues.push(rest);
     }
@@ -1614,10 +1719,16 @@ fn drain_and_verify(w: &mut World, cx: &mut Ctx, r: &mut Rng) {
 }
 
 /// one scenario: phase A, then up to three crashes with activity in between
-fn scenario(seed_rng: &mut Rng, cx: &mut Ctx, first_cuts: Option<&mut Vec<usize>>, all_cuts: bool) -> (u64, bool) {
+fn scenario(seed_rng: &mut Rng, cx: &mut Ctx, first_cuts: Option<&mut Vec<usize>>, all_cuts: bool, wide: Option<usize>) -> (u64, bool) {
     let mut r = seed_rng.clone();
-    let ntx = 1 + r.below(4) as usize;
-    let timeout_a = pick_timeout(&mut r);
+    // a wide transaction needs company: the records written after its long ones are the point
+    let ntx = if wide.is_some() { 2 + r.below(3) as usize } else { 1 + r.below(4) as usize };
+    let timeout_a = if wide.is_some() && r.chance(1, 2) { 0 } else { pick_timeout(&mut r) };
+    // every byte of a file with a 64 KiB record is too many restarts: boundaries +- a few bytes
+    let all_cuts = all_cuts && wide.is_none();
+    if wide.is_some() {
+        cx.rep.hit("scenario.wide");
+    }
     let maxc = if r.chance(1, 10) { 2 } else { 100 };
     // one scenario in five runs on size-limited WALs (appends fail once the file is full)
     let capped = r.chance(1, 5);
@@ -1628,7 +1739,7 @@ fn scenario(seed_rng: &mut Rng, cx: &mut Ctx, first_cuts: Option<&mut Vec<usize>
     if capped {
         cx.rep.hit("scenario.capped");
     }
-    let phase_a = gen_phase(&mut r, 0, ntx, timeout_a == 0);
+    let phase_a = gen_phase_wide(&mut r, 0, ntx, timeout_a == 0, wide);
     let mut cases = 0u64;
     let mut nontrivial = false;
 
@@ -1662,7 +1773,7 @@ fn scenario(seed_rng: &mut Rng, cx: &mut Ctx, first_cuts: Option<&mut Vec<usize>
         cuts.sort_unstable();
         cuts.dedup();
         // quick tier: a sample of them per scenario
-        let keep = 10usize;
+        let keep = if wide.is_some() { 5usize } else { 10usize };
         if cuts.len() > keep {
             r.shuffle(&mut cuts);
             cuts.truncate(keep);
@@ -1928,6 +2039,255 @@ fn directed_rot(cx: &mut Ctx) {
         let mut rr = Rng::new(7);
         drain_and_verify(&mut w, cx, &mut rr);
         cx.rep.case(&format!("{prefix}directed.rot"), Some(if anyway { "truncate-anyway" } else { "truncate-checkpoint" }));
+    }
+}
+
+// ------------------------------------------------------------------ long records
+
+/// Participant counts whose TxBegin payload (bitcode, a random 64-bit transaction id) lies right at
+/// the record-size boundaries that exist or could plausibly exist in WAL code.  Measured by
+/// serialising, never assumed: `n_for(b)` = the smallest count whose payload has at least `b` bytes.
+struct WideSizes {
+    /// payload just below 8 KiB (the buffer of BufReader / BufWriter) and at / above it
+    below8k: usize,
+    above8k: usize,
+    below32k: usize,
+    /// the largest participant list whose TxBegin payload is shorter than 64 KiB, and the next one
+    below64k: usize,
+    above64k: usize,
+    /// about 100 KB (50 000 shards)
+    n100k: usize,
+    above128k: usize,
+    /// more than 1 MiB
+    above1m: usize,
+}
+
+fn begin_payload_len(n: usize) -> usize {
+    bitcode::serialize(&TxWalEntry::TxBegin { tx_id: u64::MAX / 3, participants: (0..n).collect() }).unwrap().len()
+}
+
+fn wide_n_for(target: usize) -> usize {
+    let (mut lo, mut hi) = (0usize, 1usize);
+    while begin_payload_len(hi) < target {
+        lo = hi;
+        hi *= 2;
+    }
+    while lo + 1 < hi {
+        let mid = (lo + hi) / 2;
+        if begin_payload_len(mid) < target {
+            lo = mid;
+        } else {
+            hi = mid;
+        }
+    }
+    hi
+}
+
+impl WideSizes {
+    fn measure() -> WideSizes {
+        let a8 = wide_n_for(8192);
+        let a64 = wide_n_for(65536);
+        WideSizes {
+            below8k: a8 - 1,
+            above8k: a8,
+            below32k: wide_n_for(32768) - 1,
+            below64k: a64 - 1,
+            above64k: a64,
+            n100k: 50_000,
+            above128k: wide_n_for(131_073),
+            above1m: wide_n_for(1_048_577),
+        }
+    }
+}
+
+/// Long records through the real coordinator.  RUN FIRST.  The property needs every record whose
+/// append was acknowledged to be replayed after a restart; a long record (the TxBegin of a wide
+/// transaction, the AbortIntent written when it times out) in the MIDDLE of the log is the shortest
+/// history in which "the read side accepts every frame the write side produces" is the only thing
+/// that keeps the decisions logged after it.  Scripts (P = a two-shard transaction, W = the wide one):
+///   between-prepare-and-commit   P prepared, W begins, P committed           (commit logged after the long record)
+///   wide-first                   W begins, P prepared and committed          (all of P after it)
+///   between-votes                P votes, W begins, P's last vote -> Prepared (Prepared logged after it: must come back)
+///   abort-intent                 P prepared, W begins and times out, AbortIntent(W) flushed, Q prepared and aborted
+///   after-restart                P prepared, restart, W begins, P committed  (second incarnation writes the long record)
+///   wide-aborted                 W begins and is aborted, P prepared and aborted (logged abort must not become a commit)
+/// each followed by cuts of the file (whole; around the long record; inside it), restart, both
+/// completions tried on every transaction, a new transaction, another crash, drain + clean restart.
+/// Then a ladder of sizes over the first script: empty participant list, 1, typical, just below /
+/// above 8 KiB, 32 KiB, 64 KiB, ~100 KB, above 128 KiB, above 1 MiB.
+fn directed_wide(cx: &mut Ctx, sz: &WideSizes, thorough: bool) {
+    let yes = V::YesLocked;
+    let p2 = Op::Begin { parts: vec![0, 1], xflag: false };
+    let wide = |n: usize| Op::Begin { parts: (0..n).collect(), xflag: false };
+    let prepared = |t: usize| vec![Op::Vote { t, shard: 0, v: V::YesLocked }, Op::Vote { t, shard: 1, v: V::YesLocked }];
+    let n = sz.above64k;
+    // (name, timeout of the first process, ops)
+    let mut scripts: Vec<(&str, u64, Vec<Op>)> = vec![];
+    scripts.push(("between-prepare-and-commit", NEVER_MS,
+        [vec![p2.clone()], prepared(0), vec![wide(n), Op::Commit(0)]].concat()));
+    scripts.push(("wide-first", NEVER_MS,
+        [vec![wide(n), p2.clone()], prepared(1), vec![Op::Commit(1)]].concat()));
+    scripts.push(("between-votes", NEVER_MS,
+        vec![p2.clone(), Op::Vote { t: 0, shard: 0, v: yes.clone() }, wide(n), Op::Vote { t: 0, shard: 1, v: yes.clone() }]));
+    scripts.push(("abort-intent", 0,
+        [vec![p2.clone()], prepared(0), vec![Op::Commit(0), wide(n), Op::Sleep(2 * GUARD_MS), Op::Cleanup, Op::Flush, p2.clone()],
+         prepared(2), vec![Op::Abort(2)]].concat()));
+    scripts.push(("after-restart", NEVER_MS,
+        [vec![p2.clone()], prepared(0),
+         vec![Op::Crash { cut: Cut::Full, timeout: NEVER_MS, maxc: 100, cap: None }, wide(n), Op::Commit(0)]].concat()));
+    scripts.push(("wide-aborted", NEVER_MS,
+        [vec![wide(n), Op::Abort(0), p2.clone()], prepared(1), vec![Op::Abort(1)]].concat()));
+    for (si, (name, timeout, ops)) in scripts.iter().enumerate() {
+        cx.rep.hit(&format!("directed.wide.{name}"));
+        let mut w = World::new(*timeout, 100, cx.m);
+        for op in ops {
+            exec(&mut w, op, cx);
+        }
+        if w.clock_unsure {
+            cx.rep.hit("directed.wide.clock_unsure");
+            continue;
+        }
+        let file = w.file();
+        // cuts: the whole file; around and inside every long record; the first script also at every
+        // later record boundary
+        let mut cuts: Vec<usize> = vec![file.len()];
+        let mut prev = 0usize;
+        for r in &w.book.recs {
+            if r.plen >= 4096 {
+                let around: Vec<i64> = if si == 0 || thorough {
+                    vec![prev as i64 - 1, prev as i64, prev as i64 + 9, (prev + r.end) as i64 / 2, r.end as i64 - 1, r.end as i64, r.end as i64 + 1]
+                } else {
+                    vec![prev as i64, r.end as i64 - 1, r.end as i64]
+                };
+                for c in around {
+                    if c >= 0 && c as usize <= file.len() {
+                        cuts.push(c as usize);
+                    }
+                }
+            } else if si == 0 || thorough {
+                cuts.push(r.end);
+                if thorough && r.end >= 3 {
+                    cuts.push(r.end - 3);
+                }
+            }
+            prev = r.end;
+        }
+        cuts.sort_unstable();
+        cuts.dedup();
+        cuts.reverse(); // the whole file first
+        let known = w.book.txs.len();
+        for (ci, n) in cuts.iter().enumerate() {
+            let mut wb = World::dead_copy(&w);
+            restart_at(&mut wb, &file, *n, NEVER_MS, 100, None, cx);
+            // both completions on every transaction, in both orders
+            for t in 0..known {
+                let flip = (ci + t) % 2 == 0;
+                exec(&mut wb, &if flip { Op::Abort(t) } else { Op::Commit(t) }, cx);
+                exec(&mut wb, &if flip { Op::Commit(t) } else { Op::Abort(t) }, cx);
+            }
+            exec(&mut wb, &Op::Cleanup, cx);
+            exec(&mut wb, &Op::RecoverMem, cx);
+            exec(&mut wb, &Op::Decisions, cx);
+            let t = wb.book.txs.len();
+            exec(&mut wb, &Op::Begin { parts: vec![0], xflag: false }, cx);
+            exec(&mut wb, &Op::Vote { t, shard: 0, v: V::YesLocked }, cx);
+            exec(&mut wb, &Op::Commit(t), cx);
+            if ci % 3 == 0 {
+                exec(&mut wb, &Op::Crash { cut: Cut::Boundary { back: ci % 4, delta: [0i64, -1, 3, -7][ci % 4] }, timeout: NEVER_MS, maxc: 100, cap: None }, cx);
+            }
+            let mut rr = Rng::new(*n as u64);
+            drain_and_verify(&mut wb, cx, &mut rr);
+            w.defined.extend(wb.defined.iter().cloned());
+            if wb.clock_unsure {
+                cx.rep.hit("directed.wide.clock_unsure");
+            } else {
+                cx.rep.case(&format!("{}directed", cx.stream_prefix), Some(&format!("{name}@{n}")));
+            }
+        }
+    }
+    // the ladder of sizes over the minimal history
+    let mut ladder: Vec<usize> = vec![0, 1, 3, 40, 300, sz.below8k, sz.above8k, sz.below64k, sz.above64k, sz.n100k, sz.above128k];
+    if thorough {
+        ladder.push(sz.below32k);
+    }
+    ladder.push(sz.above1m);
+    if thorough {
+        ladder.push(4 * sz.above1m);
+    }
+    for n in ladder {
+        cx.rep.hit("directed.wide.ladder");
+        let mut w = World::new(NEVER_MS, 100, cx.m);
+        for op in [vec![p2.clone()], prepared(0), vec![wide(n), Op::Commit(0)]].concat() {
+            exec(&mut w, &op, cx);
+        }
+        exec(&mut w, &Op::Crash { cut: Cut::Full, timeout: NEVER_MS, maxc: 100, cap: None }, cx);
+        exec(&mut w, &Op::Abort(0), cx);
+        exec(&mut w, &Op::Commit(0), cx);
+        exec(&mut w, &Op::Abort(1), cx);
+        exec(&mut w, &Op::RecoverMem, cx);
+        exec(&mut w, &Op::Decisions, cx);
+        // (a second restart on a file of more than 1 MiB only in the thorough tier: time)
+        if n < sz.above1m || thorough {
+            let mut rr = Rng::new(n as u64);
+            drain_and_verify(&mut w, cx, &mut rr);
+        }
+        if w.clock_unsure {
+            cx.rep.hit("directed.wide.clock_unsure");
+        } else {
+            cx.rep.case(&format!("{}directed", cx.stream_prefix), Some(&format!("ladder@{n}")));
+        }
+    }
+}
+
+/// A long record right at the limits the WAL's own configuration has: `max_size_bytes` one byte
+/// short of / exactly at / one byte past the long record (as the first record of the file, and after
+/// a prepared transaction), with `auto_rotate` off (the append is refused) and on (the file is
+/// rotated; a record larger than the limit is then written to the fresh file anyway).
+fn directed_wide_caps(cx: &mut Ctx, sz: &WideSizes) {
+    let n = sz.above64k;
+    let wide = Op::Begin { parts: (0..n).collect(), xflag: false };
+    // bytes of the prefix (a prepared two-shard transaction) and of the long record's frame
+    let (prefix_len, frame_len) = {
+        let mut w = World::new(NEVER_MS, 100, cx.m);
+        exec(&mut w, &Op::Begin { parts: vec![0, 1], xflag: false }, cx);
+        exec(&mut w, &Op::Vote { t: 0, shard: 0, v: V::YesLocked }, cx);
+        exec(&mut w, &Op::Vote { t: 0, shard: 1, v: V::YesLocked }, cx);
+        let a = w.file().len();
+        exec(&mut w, &wide, cx);
+        (a, w.file().len() - a)
+    };
+    let prefix = cx.stream_prefix;
+    for with_prefix in [false, true] {
+        for rot in [false, true] {
+            for d in [-1i64, 0, 1] {
+                let cap = ((if with_prefix { prefix_len } else { 0 } + frame_len) as i64 + d) as u64;
+                cx.rep.hit("directed.wide.cap");
+                let mut w = World::new_capped(NEVER_MS, 100, Some((cap, rot)), cx.m);
+                if with_prefix {
+                    exec(&mut w, &Op::Begin { parts: vec![0, 1], xflag: false }, cx);
+                    exec(&mut w, &Op::Vote { t: 0, shard: 0, v: V::YesLocked }, cx);
+                    exec(&mut w, &Op::Vote { t: 0, shard: 1, v: V::YesLocked }, cx);
+                }
+                exec(&mut w, &wide, cx);
+                if with_prefix {
+                    exec(&mut w, &Op::Commit(0), cx);
+                }
+                // a small transaction afterwards (its index depends on whether the wide begin was accepted)
+                exec(&mut w, &Op::Begin { parts: vec![0], xflag: false }, cx);
+                let t = w.book.txs.len().saturating_sub(1);
+                exec(&mut w, &Op::Vote { t, shard: 0, v: V::YesLocked }, cx);
+                exec(&mut w, &Op::Commit(t), cx);
+                exec(&mut w, &Op::Decisions, cx);
+                exec(&mut w, &Op::Crash { cut: Cut::Full, timeout: NEVER_MS, maxc: 100, cap: None }, cx);
+                exec(&mut w, &Op::RecoverMem, cx);
+                exec(&mut w, &Op::Decisions, cx);
+                let mut rr = Rng::new(cap);
+                drain_and_verify(&mut w, cx, &mut rr);
+                if !w.clock_unsure {
+                    cx.rep.case(&format!("{prefix}directed.cap"), Some(&format!("prefix={with_prefix} rot={rot} cap={cap}")));
+                }
+            }
+        }
     }
 }
 
@@ -2335,8 +2695,12 @@ fn direct_token(e: &TxWalEntry) -> String {
     }
 }
 
-fn direct_wal(cx: &mut Ctx, r: &mut Rng, rounds: u64) {
+fn direct_wal(cx: &mut Ctx, r: &mut Rng, rounds: u64, sz: &WideSizes) {
     for round_no in 0..rounds {
+        // occasionally (every 60th round) one of the first appends is a LONG record: the TxBegin of a
+        // wide transaction, an AbortIntent over its shards, or one with a long reason, with a payload
+        // around 64 KiB / 100 KB / 128 KiB; it is followed by further appends, crashes and reopens
+        let long_at: Option<u64> = if round_no % 60 == 7 { Some(r.below(3)) } else { None };
         // one round in six with `enable_checksums = false`: the checksum field is written as 0 and
         // replay skips the comparison (the model's `crc := const 0` instance)
         let no_crc = round_no % 6 == 5;
@@ -2353,9 +2717,19 @@ fn direct_wal(cx: &mut Ctx, r: &mut Rng, rounds: u64) {
             let mut wal = TxWal::open_with_config(&path, dcfg()).unwrap();
             let len_open = std::fs::metadata(&path).unwrap().len() as usize;
             // replay right after open
-            let k = if round == 0 { r.below(6) } else { 1 + r.below(4) };
-            for _ in 0..k {
-                let e = gen_entry(r);
+            let k = if round == 0 { if long_at.is_some() { 4 + r.below(3) } else { r.below(6) } } else { 1 + r.below(4) };
+            for j in 0..k {
+                let e = if round == 0 && long_at == Some(j) {
+                    cx.rep.hit("direct.append.long");
+                    let n = *r.pick(&[sz.below64k, sz.above64k, sz.n100k, sz.above128k]);
+                    match r.below(3) {
+                        0 => TxWalEntry::TxBegin { tx_id: 1 + r.below(4), participants: (0..n).collect() },
+                        1 => TxWalEntry::AbortIntent { tx_id: 1 + r.below(4), reason: "timeout".to_string(), shards: (0..n).collect() },
+                        _ => intent_with_payload(65536 + r.below(5) as usize - 2, 1 + r.below(4)).unwrap_or_else(|| gen_entry(r)),
+                    }
+                } else {
+                    gen_entry(r)
+                };
                 let before = std::fs::metadata(&path).unwrap().len() as usize;
                 wal.append(&e).unwrap();
                 let bytes = std::fs::read(&path).unwrap();
@@ -2377,7 +2751,7 @@ fn direct_wal(cx: &mut Ctx, r: &mut Rng, rounds: u64) {
                 let m_crc = cx.m.ask(&format!("crc {}", hex(&p)));
                 cx.rep.compare("crc", || json!({"payload": hex(&p)}), &crc32fast::hash(&p).to_string(), &m_crc);
                 expect.push((tok.clone(), bytes.len()));
-                trace.push(format!("append {tok}"));
+                trace.push(if tok.len() > 120 { format!("append {}…({} bytes payload)", &tok[..40], p.len()) } else { format!("append {tok}") });
                 cx.rep.hit(&format!("direct.append.{}", &tok[..1]));
             }
             let bytes = std::fs::read(&path).unwrap();
@@ -2475,6 +2849,168 @@ fn direct_wal(cx: &mut Ctx, r: &mut Rng, rounds: u64) {
     }
 }
 
+/// an AbortIntent whose bitcode payload has exactly `target` bytes (by the length of its reason)
+fn intent_with_payload(target: usize, tx: u64) -> Option<TxWalEntry> {
+    let mk = |rl: usize| TxWalEntry::AbortIntent {
+        tx_id: tx,
+        reason: (0..rl).map(|i| (b'a' + ((i * 7 + i / 26) % 26) as u8) as char).collect(),
+        shards: vec![0, 1],
+    };
+    let mut rl = target.saturating_sub(16).max(1);
+    for _ in 0..12 {
+        let l = bitcode::serialize(&mk(rl)).unwrap().len();
+        if l == target {
+            return Some(mk(rl));
+        }
+        let next = rl as i64 + target as i64 - l as i64;
+        if next < 1 {
+            return None;
+        }
+        rl = next as usize;
+    }
+    None
+}
+
+/// Record sizes through `TxWal::{append, open, replay}` directly, byte-exact: a record whose payload
+/// has exactly b-1 / b / b+1 bytes for every boundary b that exists or could plausibly exist in such
+/// code (one-byte length 256, page 4096, the 8 KiB buffer of BufReader / BufWriter as payload and as
+/// whole frame, 32 KiB, 64 KiB as payload and as whole frame, 128 KiB, 1 MiB; thorough: 4 MiB, 16 MiB),
+/// written in the MIDDLE of a small transaction's records (TxBegin, Prepared before it; Committing,
+/// TxComplete after it).  Oracles on the real WAL only: replay returns every appended record that
+/// lies before the cut, in order; open's record count equals what replay returns; a completed
+/// transaction is not classified as in progress.  Then the file is cut just before / at / just after
+/// the end of the long record and just after its header, reopened, appended to, and checked again.
+/// One size per boundary (and one cut) is also compared with the model's `replay` / `valid_len`.
+fn direct_sizes(cx: &mut Ctx, thorough: bool) {
+    let mut ladder: Vec<(usize, bool)> = vec![];
+    for b in [256usize, 4096, 8184, 8192, 32768, 65528, 65536, 131_072] {
+        ladder.push((b - 1, false));
+        ladder.push((b, false));
+        ladder.push((b + 1, true));
+    }
+    ladder.push((1_048_575, thorough));
+    ladder.push((1_048_576, thorough));
+    ladder.push((1_048_577, true));
+    if thorough {
+        for x in [(1usize << 22) + 1, (1 << 24) - 1, 1 << 24, (1 << 24) + 1] {
+            ladder.push((x, false));
+        }
+    }
+    let ph = |from, to| TxWalEntry::PhaseChange { tx_id: 1, from, to };
+    for (target, with_model) in ladder {
+        let Some(big) = intent_with_payload(target, 2) else {
+            cx.rep.hit("sizes.unattainable");
+            continue;
+        };
+        cx.rep.hit(&format!("sizes.payload.{}", len_bucket(target)));
+        let dir = tmp_dir();
+        let path = dir.path().join("s.wal");
+        cx.m.ask("reset_dict");
+        let mut trace: Vec<String> = vec![format!("long record: AbortIntent with a payload of {target} bytes")];
+        // (token, end offset)
+        let mut expect: Vec<(String, usize)> = vec![];
+        let mut append = |cx: &mut Ctx, wal: &mut TxWal, e: &TxWalEntry, expect: &mut Vec<(String, usize)>, trace: &mut Vec<String>| {
+            let p = bitcode::serialize(e).unwrap();
+            let tok = direct_token(e);
+            if with_model {
+                cx.m.ask(&format!("def {} {}", hex(&p), tok));
+            }
+            let r = wal.append(e);
+            let end = std::fs::metadata(&path).map(|m| m.len() as usize).unwrap_or(0);
+            let short = if tok.len() > 80 { format!("{}…({} bytes payload)", &tok[..40], p.len()) } else { tok.clone() };
+            trace.push(format!("append {short} -> {}", if r.is_ok() { "ok" } else { "err" }));
+            if r.is_ok() {
+                expect.push((tok, end));
+            }
+        };
+        // what a fresh handle on the file says
+        let verify = |cx: &mut Ctx, expect: &Vec<(String, usize)>, trace: &Vec<String>, model: bool, torn_seen: bool| {
+            let wal = TxWal::open_with_config(&path, wal_cfg(None)).unwrap();
+            let counted = wal.entry_count();
+            let rp = wal.replay();
+            let got: Vec<String> = rp.as_ref().map(|es| es.iter().map(direct_token).collect()).unwrap_or_default();
+            let want: Vec<String> = expect.iter().map(|x| x.0.clone()).collect();
+            let shorten = |v: &Vec<String>| v.iter().map(|t| if t.len() > 80 { format!("{}…", &t[..40]) } else { t.clone() }).collect::<Vec<_>>();
+            cx.rep.hit("oracle.sizes.replay");
+            if rp.is_err() || got != want {
+                let class = if torn_seen { "tensor_chain.tx_wal.open/append_after_torn_tail" } else { "tensor_chain.tx_wal.replay/acknowledged_record_lost" };
+                report_violation(cx.rep, class, "TxWal::replay does not return the appended records that lie before the cut",
+                    json!({"trace": trace, "long_record_payload_bytes": target, "expected": shorten(&want), "replayed": shorten(&got),
+                           "replay_err": rp.as_ref().err().map(|e| e.to_string())}));
+            }
+            if rp.is_ok() && got.len() as u64 != counted {
+                let class = if torn_seen { "tensor_chain.tx_wal.open/append_after_torn_tail" } else { "tensor_chain.tx_wal.replay/fewer_records_than_open_counted" };
+                report_violation(cx.rep, class,
+                    "TxWal::open counted more complete records in the file than TxWal::replay returns: records written by append are invisible to recovery",
+                    json!({"trace": trace, "long_record_payload_bytes": target, "entry_count_after_open": counted, "replayed": got.len()}));
+            }
+            if want.iter().any(|t| t == "C:1:c") {
+                if let Ok(st) = TxRecoveryState::from_wal(&wal) {
+                    if st.prepared_txs.iter().chain(st.committing_txs.iter()).chain(st.aborting_txs.iter()).any(|r| r.tx_id == 1) {
+                        report_violation(cx.rep, "tensor_chain.tx_wal.from_wal/completed_tx_classified_in_progress",
+                            "a transaction whose TxComplete record is in the file is classified as in progress by TxRecoveryState::from_wal",
+                            json!({"trace": trace, "long_record_payload_bytes": target}));
+                    }
+                }
+            }
+            if model {
+                let bytes = std::fs::read(&path).unwrap_or_default();
+                let impl_rp = match &rp {
+                    Ok(_) => format!("ok {}", if got.is_empty() { "-".to_string() } else { got.join(" ") }),
+                    Err(_) => "err checksum".to_string(),
+                };
+                let m_rp = cx.m.ask(&format!("replay {}", hex(&bytes)));
+                cx.rep.compare("wal.replay", || json!({"trace": trace, "long_record_payload_bytes": target}), &impl_rp, &m_rp);
+            }
+        };
+        let mut wal = TxWal::open_with_config(&path, wal_cfg(None)).unwrap();
+        append(cx, &mut wal, &TxWalEntry::TxBegin { tx_id: 1, participants: vec![0, 1] }, &mut expect, &mut trace);
+        append(cx, &mut wal, &ph(TxPhase::Preparing, TxPhase::Prepared), &mut expect, &mut trace);
+        let big_start = expect.last().map(|x| x.1).unwrap_or(0);
+        append(cx, &mut wal, &big, &mut expect, &mut trace);
+        let big_end = expect.last().map(|x| x.1).unwrap_or(0);
+        append(cx, &mut wal, &ph(TxPhase::Prepared, TxPhase::Committing), &mut expect, &mut trace);
+        append(cx, &mut wal, &TxWalEntry::TxComplete { tx_id: 1, outcome: TxOutcome::Committed }, &mut expect, &mut trace);
+        // the writing handle itself, then a fresh one
+        {
+            let got: Vec<String> = wal.replay().map(|es| es.iter().map(direct_token).collect()).unwrap_or_default();
+            if got.len() != expect.len() {
+                report_violation(cx.rep, "tensor_chain.tx_wal.replay/acknowledged_record_lost",
+                    "TxWal::replay on the writing handle does not return every appended record",
+                    json!({"trace": trace, "long_record_payload_bytes": target, "appended": expect.len(), "replayed": got.len()}));
+            }
+        }
+        drop(wal);
+        verify(cx, &expect, &trace, with_model, false);
+        let full = std::fs::read(&path).unwrap();
+        let mut torn_seen = false;
+        for (ci, cut) in [big_end - 1, big_end, big_end + 1, big_start + 9].into_iter().enumerate() {
+            let cut = cut.min(full.len());
+            std::fs::write(&path, &full[..cut]).unwrap();
+            let mut exp2: Vec<(String, usize)> = expect.iter().filter(|x| x.1 <= cut).cloned().collect();
+            let mut tr2 = trace.clone();
+            tr2.push(format!("crash cut={cut}/{}", full.len()));
+            let whole = exp2.last().map(|x| x.1).unwrap_or(0);
+            let model_here = with_model && ci == 0 && (target < 512 * 1024 || thorough);
+            let mut w2 = TxWal::open_with_config(&path, wal_cfg(None)).unwrap();
+            if model_here {
+                let m_v = cx.m.ask(&format!("valid_len {}", hex(&full[..cut])));
+                let len2 = std::fs::metadata(&path).unwrap().len();
+                cx.rep.compare("wal.valid_len", || json!({"trace": tr2}), &len2.to_string(), &m_v);
+            }
+            verify(cx, &exp2, &tr2, false, torn_seen);
+            if whole != cut {
+                torn_seen = true;
+            }
+            append(cx, &mut w2, &TxWalEntry::TxComplete { tx_id: 2, outcome: TxOutcome::Aborted }, &mut exp2, &mut tr2);
+            drop(w2);
+            verify(cx, &exp2, &tr2, model_here, torn_seen);
+            torn_seen = false; // every cut starts from the intact file again
+        }
+        cx.rep.case("wal.sizes", Some(&format!("payload={target}")));
+    }
+}
+
 fn main() {
     let args = parse_args();
     let mut rep = Report::new(
@@ -2500,6 +3036,9 @@ fn main() {
         "op.truncate.skipped_pending", "truncate.prepared_tx_dropped", "oracle.prepared_in_memory_durable",
         "handles.recovered_some", "handles.orphaned_some", "oracle.foreign_lock_kept", "handles.finish.commit", "handles.finish.abort",
         "handles.finish.force_resolve", "handles.finish.complete_commit",
+        "wal.len.lt256", "wal.len.lt8k", "wal.len.lt64k", "wal.len.ge64k", "wal.len.ge1m", "sizes.payload.ge64k", "sizes.payload.ge1m",
+        "oracle.open_count_vs_replay", "oracle.sizes.replay", "scenario.wide", "direct.append.long",
+        "directed.wide.between-prepare-and-commit", "directed.wide.abort-intent", "directed.wide.cap", "directed.wide.ladder",
     ]
     .iter()
     .map(|s| s.to_string())
@@ -2508,8 +3047,24 @@ fn main() {
     let root = Rng::new(args.seed);
     let t_start = std::time::Instant::now();
 
-    // first, on every run: the regression of the repaired lock-handle defect (0358827a) and the
-    // directed cases of the two known findings (rotation, truncate_wal with a transaction pending)
+    // first, on every run: long records (a wide transaction's TxBegin / AbortIntent of 64 KiB and
+    // more in the middle of other transactions' records; record sizes byte-exact at every plausible
+    // boundary; a long record right at the WAL's own size limit), the regression of the repaired
+    // lock-handle defect (0358827a) and the directed cases of the two known findings (rotation,
+    // truncate_wal with a transaction pending)
+    let sizes = WideSizes::measure();
+    rep.note(&format!(
+        "wide transactions: TxBegin payload bytes for the participant counts used - {} -> {}, {} -> {}, {} -> {}, {} -> {}, {} -> {}, {} -> {}",
+        sizes.below8k, begin_payload_len(sizes.below8k), sizes.above8k, begin_payload_len(sizes.above8k),
+        sizes.below64k, begin_payload_len(sizes.below64k), sizes.above64k, begin_payload_len(sizes.above64k),
+        sizes.above128k, begin_payload_len(sizes.above128k), sizes.above1m, begin_payload_len(sizes.above1m)));
+    {
+        let mut cx = Ctx { m: &mut m, rep: &mut rep, stream_prefix: "wide." };
+        directed_wide(&mut cx, &sizes, args.thorough);
+        directed_wide_caps(&mut cx, &sizes);
+        direct_sizes(&mut cx, args.thorough);
+    }
+    rep.note(&format!("long-record directed cases took {:.1} s", t_start.elapsed().as_secs_f64()));
     {
         let mut cx = Ctx { m: &mut m, rep: &mut rep, stream_prefix: "" };
         directed_stale_handle(&mut cx);
@@ -2522,7 +3077,7 @@ fn main() {
         let mut cx = Ctx { m: &mut m, rep: &mut rep, stream_prefix: "" };
         // direct WAL differential
         let mut r = root.fork("direct");
-        direct_wal(&mut cx, &mut r, if args.thorough { 1500 } else { 150 });
+        direct_wal(&mut cx, &mut r, if args.thorough { 1500 } else { 150 }, &sizes);
         // hand-written shapes, every byte
         directed(&mut cx);
         directed_timeout_after_restart(&mut cx);
@@ -2548,7 +3103,15 @@ fn main() {
         let mut cx = Ctx { m: &mut m, rep: &mut rep, stream_prefix: "" };
         // thorough: every byte of phase A's file for every scenario; quick: every byte for 1 in 12
         let all = args.thorough || i % 12 == 0;
-        let (c, _) = scenario(&mut rs, &mut cx, None, all);
+        // occasionally (every 41st scenario) one of the transactions of phase A is WIDE: its
+        // TxBegin payload is just below / just above 64 KiB, ~100 KB or ~128 KiB
+        let wide = if i % 41 == 7 {
+            let mut rw = rs.fork("wide");
+            Some(*rw.pick(&[sizes.below64k, sizes.above64k, sizes.above64k, sizes.n100k, sizes.above128k]))
+        } else {
+            None
+        };
+        let (c, _) = scenario(&mut rs, &mut cx, None, all, wide);
         done += c;
     }
     rep.note(&format!("scenario branches run: {done}; model lines: {}", m.lines));
